@@ -111,6 +111,8 @@ func genTokenLines(t *rapid.T, want string, include bool, others, nearMiss []str
 	// white space that is not OWS (no-break space, ideographic space, NEL, VT,
 	// FF), quoted, or carrying a parameter
 	nearMiss = append(append([]string(nil), nearMiss...), "\u00a0"+want, "\u3000"+want, want+"\u00a0", "\u0085"+want, "\x0b"+want, want+"\x0c", `"`+want+`"`, want+";q=1", want+" x")
+	// every character a token may contain occurs in the other elements
+	others = append(append([]string(nil), others...), "x~y", "a`b", "!#$%&'*+-.^_`|~", "~", "`", "0|9")
 	nl := rapid.IntRange(1, 2).Draw(t, "nlines")
 	if !include && rapid.IntRange(0, 5).Draw(t, "absent") == 0 {
 		return nil
@@ -285,7 +287,7 @@ func genServerHSCase(t *rapid.T) ServerHSCase {
 			c.CheckOrigin = ""
 			// incl. hosts that equal Host only under Unicode (not ASCII) case folding
 			kelvin := strings.Replace(strings.Replace(r.Host, "k", "\u212a", 1), "s", "\u017f", 1)
-			r.Origin = []string{rapid.SampledFrom([]string{"https://evil.example.net", "http://x" + r.Host, "http://" + r.Host + ".evil.net", "null", "http://" + kelvin, "https://" + strings.ToUpper(kelvin)}).Draw(t, "origin_foreign")}
+			r.Origin = []string{rapid.SampledFrom([]string{"https://evil.example.net", "http://x" + r.Host, "http://" + r.Host + ".evil.net", "null", "http://" + kelvin, "https://" + strings.ToUpper(kelvin), "", "http://"}).Draw(t, "origin_foreign")}
 			if r.Origin[0] == "http://"+r.Host {
 				r.Origin[0] = "https://evil.example.net" // Host has neither k nor s
 			}
